@@ -595,5 +595,433 @@ theorem registerUnit_spec : StepSpecS registerUnit PUnitComms where
     · intro hp c hc; exact (PComm.stable c h).mp (hp c hc)
     · intro hp c hc; exact (PComm.stable c h).mpr (hp c hc)
 
+/-! ### one posting -/
+
+theorem valuePosition_comms (amount : Dec) (unit : Option PostUnit) (vp : VP)
+    (h : valuePosition amount unit = .ok vp) :
+    (vp.postComm = "" ∨ vp.postComm ∈ unitComms unit) ∧ (vp.txnComm = "" ∨ vp.txnComm ∈ unitComms unit) := by
+  unfold valuePosition at h
+  split at h
+  · cases h; simp
+  · rename_i u
+    split at h
+    · rename_i hcl
+      split at h
+      · cases h
+      · cases h; simp [unitComms, hcl]
+    · rename_i v hcl
+      (repeat' split at h) <;> first | (cases h; done) | (cases h; simp [unitComms, hcl])
+    · rename_i v hcl
+      (repeat' split at h) <;> first | (cases h; done) | (cases h; simp [unitComms, hcl])
+
+theorem handlePosting_ok (s : Settings) (rp : RawPosting) (p : Posting) (s2 : Settings) :
+    handlePosting s rp = .ok (p, s2) ↔
+      ∃ s1 vp a, registerUnit s rp.unit = .ok s1 ∧ valuePosition rp.amount rp.unit = .ok vp ∧
+        s1.getOrCreateTxnAccount rp.acct vp.postComm = .ok (a, s2) ∧
+        mkPosting ⟨a, vp.postComm, vp.postAmount, vp.txnAmount, vp.isTotal, vp.txnComm, rp.comment⟩ = .ok p := by
+  unfold handlePosting
+  cases h1 : registerUnit s rp.unit with
+  | err => simp
+  | undef => simp
+  | ok s1 =>
+    cases h2 : valuePosition rp.amount rp.unit with
+    | err => simp
+    | undef => simp
+    | ok vp =>
+      cases h3 : s1.getOrCreateTxnAccount rp.acct vp.postComm with
+      | err => simp [h3]
+      | undef => simp [h3]
+      | ok r =>
+        obtain ⟨a, s2'⟩ := r
+        simp only [Outcome.ok.injEq, exists_and_left, exists_eq_left', h3, Prod.mk.injEq, Outcome.map_ok]
+        constructor
+        · rintro ⟨q, hq, rfl, rfl⟩
+          exact ⟨a, ⟨rfl, rfl⟩, hq⟩
+        · rintro ⟨a', ⟨rfl, rfl⟩, hq⟩
+          exact ⟨p, hq, rfl, rfl⟩
+
+/-- every commodity the posting value names and the account are in the charts -/
+def PPosting (s : Settings) (rp : RawPosting) : Prop := PUnitComms s rp.unit ∧ rp.acct ∈ s.accounts
+
+theorem PPosting.stable {s t : Settings} (rp : RawPosting) (h : Frozen s t) : PPosting t rp ↔ PPosting s rp := by
+  simp only [PPosting, registerUnit_spec.stable s t rp.unit h, h.accounts]
+
+theorem handlePosting_spec : StepSpec handlePosting PPosting where
+  flags := by
+    intro s rp p s2 h
+    obtain ⟨s1, vp, a, h1, _, h3, _⟩ := (handlePosting_ok _ _ _ _).mp h
+    exact (acct_spec.flags s1 (rp.acct, vp.postComm) a s2 h3).trans (registerUnit_spec.flags _ _ _ h1)
+  frozen := by
+    intro s rp p s2 hs h
+    obtain ⟨s1, vp, a, h1, _, h3, _⟩ := (handlePosting_ok _ _ _ _).mp h
+    have hfr := registerUnit_spec.frozen _ _ _ hs h1
+    exact hfr.trans (acct_spec.frozen s1 (rp.acct, vp.postComm) a s2 (hfr.strict.trans hs) h3)
+  iff := by
+    intro s s' rp p hr
+    constructor
+    · rintro ⟨s2, h⟩
+      obtain ⟨s1, vp, a, h1, h2, h3, h4⟩ := (handlePosting_ok _ _ _ _).mp h
+      obtain ⟨hp1, s1', h1'⟩ := (registerUnit_spec.iff s s' rp.unit hr).mp ⟨s1, h1⟩
+      have hr1 : Rel s1 s1' := hr.step (registerUnit_spec.flags _ _ _ h1) (registerUnit_spec.flags _ _ _ h1')
+      obtain ⟨hp3, s2', h3'⟩ := (acct_spec.iff s1 s1' (rp.acct, vp.postComm) a hr1).mp ⟨s2, h3⟩
+      refine ⟨fun hs => ⟨hp1 hs, ?_⟩, s2', (handlePosting_ok _ _ _ _).mpr ⟨s1', vp, a, h1', h2, h3', h4⟩⟩
+      have hfr := registerUnit_spec.frozen _ _ _ hs h1
+      have := (hp3 (hfr.strict.trans hs)).1
+      rw [hfr.accounts] at this
+      exact this
+    · rintro ⟨hp, s2', h'⟩
+      obtain ⟨s1', vp, a, h1', h2, h3', h4⟩ := (handlePosting_ok _ _ _ _).mp h'
+      obtain ⟨s1, h1⟩ := (registerUnit_spec.iff s s' rp.unit hr).mpr ⟨fun hs => (hp hs).1, s1', h1'⟩
+      have hr1 : Rel s1 s1' := hr.step (registerUnit_spec.flags _ _ _ h1) (registerUnit_spec.flags _ _ _ h1')
+      obtain ⟨s2, h3⟩ := (acct_spec.iff s1 s1' (rp.acct, vp.postComm) a hr1).mpr ⟨fun hs1 => by
+        have hs : s.strict = true := (strict_of_flags (registerUnit_spec.flags _ _ _ h1)).symm.trans hs1
+        have hfr := registerUnit_spec.frozen _ _ _ hs h1
+        refine ⟨by rw [hfr.accounts]; exact (hp hs).2, (PComm.stable _ hfr).mpr ?_⟩
+        rcases (valuePosition_comms _ _ _ h2).1 with h0 | hm
+        · exact .inl h0
+        · exact (hp hs).1 _ hm, s2', h3'⟩
+      exact ⟨s2, (handlePosting_ok _ _ _ _).mpr ⟨s1, vp, a, h1, h2, h3, h4⟩⟩
+  stable := fun s t rp h => PPosting.stable rp h
+
+theorem mkPosting_eq (q p : Posting) (h : mkPosting q = .ok p) : p = q := by
+  unfold mkPosting at h
+  split at h
+  · cases h
+  · cases h; rfl
+
+theorem handlePosting_txnComm (s : Settings) (rp : RawPosting) (p : Posting) (s2 : Settings)
+    (h : handlePosting s rp = .ok (p, s2)) :
+    p.acct = rp.acct ∧ (p.comm = "" ∨ p.comm ∈ unitComms rp.unit) ∧ (p.txnComm = "" ∨ p.txnComm ∈ unitComms rp.unit) := by
+  obtain ⟨s1, vp, a, _, h2, h3, h4⟩ := (handlePosting_ok _ _ _ _).mp h
+  have := mkPosting_eq _ _ h4
+  subst this
+  have ha : a = rp.acct := ((gocta_ok s1 rp.acct vp.postComm a).mp ⟨_, h3⟩).1
+  exact ⟨ha, (valuePosition_comms _ _ _ h2).1, (valuePosition_comms _ _ _ h2).2⟩
+
+/-! ### the postings of one transaction -/
+
+abbrev PostingsArg := List RawPosting × Option (Path × Option String)
+
+theorem acceptPostings_ok (s : Settings) (posts : List RawPosting) (last : Option (Path × Option String))
+    (all : List Posting) (s2 : Settings) :
+    acceptPostings s posts last = .ok (all, s2) ↔
+      ∃ p0 rest s1, mapMS handlePosting s posts = .ok (p0 :: rest, s1) ∧
+        ((last = none ∧ all = p0 :: rest ∧ s2 = s1) ∨
+         (∃ a cmt sm a' l, last = some (a, cmt) ∧ txnSum (p0 :: rest) = some sm ∧
+            s1.getOrCreateTxnAccount a p0.txnComm = .ok (a', s2) ∧
+            mkPosting ⟨a', p0.txnComm, sm.negate, sm.negate, false, p0.txnComm, cmt⟩ = .ok l ∧
+            all = (p0 :: rest) ++ [l])) := by
+  constructor
+  · intro h
+    unfold acceptPostings at h
+    cases h1 : mapMS handlePosting s posts with
+    | err => simp [h1] at h
+    | undef => simp [h1] at h
+    | ok r =>
+      obtain ⟨ps, s1⟩ := r
+      simp only [h1] at h
+      cases ps with
+      | nil => simp at h
+      | cons p0 rest =>
+        simp only at h
+        cases last with
+        | none =>
+          simp only [Outcome.ok.injEq, Prod.mk.injEq] at h
+          exact ⟨p0, rest, s1, rfl, .inl ⟨rfl, h.1.symm, h.2.symm⟩⟩
+        | some ac =>
+          obtain ⟨a, cmt⟩ := ac
+          simp only at h
+          cases hsm : txnSum (p0 :: rest) with
+          | none => simp [hsm] at h
+          | some sm =>
+            simp only [hsm] at h
+            cases hg : s1.getOrCreateTxnAccount a p0.txnComm with
+            | err => simp [hg] at h
+            | undef => simp [hg] at h
+            | ok r3 =>
+              obtain ⟨a', s2'⟩ := r3
+              simp only [hg] at h
+              obtain ⟨l, hl, hr⟩ := (Outcome.map_ok _ _ _).mp h
+              cases hr
+              exact ⟨p0, rest, s1, rfl, .inr ⟨a, cmt, sm, a', l, rfl, hsm, hg, hl, rfl⟩⟩
+  · rintro ⟨p0, rest, s1, h1, hcase⟩
+    rcases hcase with ⟨rfl, rfl, rfl⟩ | ⟨a, cmt, sm, a', l, rfl, hsm, hg, hl, rfl⟩
+    · simp [acceptPostings, h1]
+    · simp [acceptPostings, h1, hsm, hg, hl, Outcome.map]
+
+def PPostings (s : Settings) (a : PostingsArg) : Prop :=
+  (∀ rp ∈ a.1, PPosting s rp) ∧ (∀ acc cmt, a.2 = some (acc, cmt) → acc ∈ s.accounts)
+
+theorem postings_spec : StepSpec (fun s l => mapMS handlePosting s l) (fun s l => ∀ rp ∈ l, PPosting s rp) :=
+  handlePosting_spec.mapMS
+
+/-- the transaction commodity of the first posting is one of the commodities its value names -/
+theorem first_txnComm (s s1 : Settings) (posts : List RawPosting) (p0 : Posting) (rest : List Posting)
+    (h : mapMS handlePosting s posts = .ok (p0 :: rest, s1)) :
+    p0.txnComm = "" ∨ ∃ rp ∈ posts, p0.txnComm ∈ unitComms rp.unit := by
+  obtain ⟨rp, hrp, sa, sb, hh⟩ := mapMS_ok handlePosting posts s s1 (p0 :: rest) h p0 List.mem_cons_self
+  rcases (handlePosting_txnComm _ _ _ _ hh).2.2 with h0 | hm
+  · exact .inl h0
+  · exact .inr ⟨rp, hrp, hm⟩
+
+theorem acceptPostings_spec : StepSpec (fun s (a : PostingsArg) => acceptPostings s a.1 a.2) PPostings where
+  flags := by
+    intro s a all s2 h
+    obtain ⟨p0, rest, s1, h1, hcase⟩ := (acceptPostings_ok _ _ _ _ _).mp h
+    have hf1 := postings_spec.flags _ _ _ _ h1
+    rcases hcase with ⟨_, _, rfl⟩ | ⟨acc, cmt, sm, a', l, _, _, hg, _, _⟩
+    · exact hf1
+    · exact (acct_spec.flags s1 (acc, p0.txnComm) a' s2 hg).trans hf1
+  frozen := by
+    intro s a all s2 hs h
+    obtain ⟨p0, rest, s1, h1, hcase⟩ := (acceptPostings_ok _ _ _ _ _).mp h
+    have hfr := postings_spec.frozen _ _ _ _ hs h1
+    rcases hcase with ⟨_, _, rfl⟩ | ⟨acc, cmt, sm, a', l, _, _, hg, _, _⟩
+    · exact hfr
+    · exact hfr.trans (acct_spec.frozen s1 (acc, p0.txnComm) a' s2 (hfr.strict.trans hs) hg)
+  iff := by
+    intro s s' a all hr
+    obtain ⟨posts, last⟩ := a
+    constructor
+    · rintro ⟨s2, h⟩
+      obtain ⟨p0, rest, s1, h1, hcase⟩ := (acceptPostings_ok _ _ _ _ _).mp h
+      obtain ⟨hp1, s1', h1'⟩ := (postings_spec.iff s s' posts (p0 :: rest) hr).mp ⟨s1, h1⟩
+      have hr1 : Rel s1 s1' := hr.step (postings_spec.flags _ _ _ _ h1) (postings_spec.flags _ _ _ _ h1')
+      rcases hcase with ⟨rfl, rfl, rfl⟩ | ⟨acc, cmt, sm, a', l, rfl, hsm, hg, hl, rfl⟩
+      · refine ⟨fun hs => ⟨hp1 hs, ?_⟩, s1', (acceptPostings_ok _ _ _ _ _).mpr ⟨p0, rest, s1', h1', .inl ⟨rfl, rfl, rfl⟩⟩⟩
+        intro acc cmt hl; cases hl
+      · obtain ⟨hp3, s2', hg'⟩ := (acct_spec.iff s1 s1' (acc, p0.txnComm) a' hr1).mp ⟨s2, hg⟩
+        refine ⟨fun hs => ⟨hp1 hs, ?_⟩, s2', (acceptPostings_ok _ _ _ _ _).mpr
+          ⟨p0, rest, s1', h1', .inr ⟨acc, cmt, sm, a', l, rfl, hsm, hg', hl, rfl⟩⟩⟩
+        intro acc0 cmt0 hl0
+        simp only [Option.some.injEq, Prod.mk.injEq] at hl0
+        obtain ⟨rfl, rfl⟩ := hl0
+        have hfr := postings_spec.frozen _ _ _ _ hs h1
+        have := (hp3 (hfr.strict.trans hs)).1
+        rw [hfr.accounts] at this
+        exact this
+    · rintro ⟨hp, s2', h'⟩
+      obtain ⟨p0, rest, s1', h1', hcase⟩ := (acceptPostings_ok _ _ _ _ _).mp h'
+      obtain ⟨s1, h1⟩ := (postings_spec.iff s s' posts (p0 :: rest) hr).mpr ⟨fun hs => (hp hs).1, s1', h1'⟩
+      have hr1 : Rel s1 s1' := hr.step (postings_spec.flags _ _ _ _ h1) (postings_spec.flags _ _ _ _ h1')
+      rcases hcase with ⟨rfl, rfl, rfl⟩ | ⟨acc, cmt, sm, a', l, rfl, hsm, hg', hl, rfl⟩
+      · exact ⟨s1, (acceptPostings_ok _ _ _ _ _).mpr ⟨p0, rest, s1, h1, .inl ⟨rfl, rfl, rfl⟩⟩⟩
+      · obtain ⟨s2, hg⟩ := (acct_spec.iff s1 s1' (acc, p0.txnComm) a' hr1).mpr ⟨fun hs1 => by
+          have hs : s.strict = true := (strict_of_flags (postings_spec.flags _ _ _ _ h1)).symm.trans hs1
+          have hfr := postings_spec.frozen _ _ _ _ hs h1
+          refine ⟨by rw [hfr.accounts]; exact (hp hs).2 acc cmt rfl, (PComm.stable _ hfr).mpr ?_⟩
+          rcases first_txnComm _ _ _ _ _ h1 with h0 | ⟨rp, hrp, hm⟩
+          · exact .inl h0
+          · exact ((hp hs).1 rp hrp).1 _ hm, s2', hg'⟩
+        exact ⟨s2, (acceptPostings_ok _ _ _ _ _).mpr
+          ⟨p0, rest, s1, h1, .inr ⟨acc, cmt, sm, a', l, rfl, hsm, hg, hl, rfl⟩⟩⟩
+  stable := by
+    intro s t a h
+    simp only [PPostings, h.accounts]
+    constructor
+    · rintro ⟨h1, h2⟩; exact ⟨fun rp hrp => (PPosting.stable rp h).mp (h1 rp hrp), h2⟩
+    · rintro ⟨h1, h2⟩; exact ⟨fun rp hrp => (PPosting.stable rp h).mpr (h1 rp hrp), h2⟩
+
+/-! ### header: tags -/
+
+theorem tags_spec : StepSpec (fun s l => mapMS (fun s t => s.getOrCreateTag t) s l) (fun s l => ∀ t ∈ l, PTag s t) :=
+  tag_spec.mapMS
+
+theorem acceptTags_ok (s : Settings) (tags : List String) (s2 : Settings) :
+    acceptTags s tags = .ok s2 ↔
+      (∃ bs, mapMS (fun s t => s.getOrCreateTag t) s tags = .ok (bs, s2)) ∧ tags.Nodup := by
+  unfold acceptTags
+  cases h1 : mapMS (fun s t => s.getOrCreateTag t) s tags with
+  | err => simp
+  | undef => simp
+  | ok r =>
+    obtain ⟨bs, s1⟩ := r
+    by_cases hn : tags.Nodup <;> simp [hn]
+
+theorem acceptTags_spec : StepSpecS acceptTags (fun s l => ∀ t ∈ l, PTag s t) where
+  flags := by
+    intro s l s2 h
+    obtain ⟨⟨bs, h1⟩, _⟩ := (acceptTags_ok _ _ _).mp h
+    exact tags_spec.flags _ _ _ _ h1
+  frozen := by
+    intro s l s2 hs h
+    obtain ⟨⟨bs, h1⟩, _⟩ := (acceptTags_ok _ _ _).mp h
+    exact tags_spec.frozen _ _ _ _ hs h1
+  iff := by
+    intro s s' l hr
+    constructor
+    · rintro ⟨s2, h⟩
+      obtain ⟨⟨bs, h1⟩, hn⟩ := (acceptTags_ok _ _ _).mp h
+      obtain ⟨hp, s2', h1'⟩ := (tags_spec.iff s s' l bs hr).mp ⟨s2, h1⟩
+      exact ⟨hp, s2', (acceptTags_ok _ _ _).mpr ⟨⟨bs, h1'⟩, hn⟩⟩
+    · rintro ⟨hp, s2', h'⟩
+      obtain ⟨⟨bs, h1'⟩, hn⟩ := (acceptTags_ok _ _ _).mp h'
+      obtain ⟨s2, h1⟩ := (tags_spec.iff s s' l bs hr).mpr ⟨hp, s2', h1'⟩
+      exact ⟨s2, (acceptTags_ok _ _ _).mpr ⟨⟨bs, h1⟩, hn⟩⟩
+  stable := tags_spec.stable
+
+/-- every tag of the header is in the chart -/
+def PHeader (s : Settings) (h : Header) : Prop := ∀ ts, h.tags = some ts → ∀ t ∈ ts, PTag s t
+
+def locOk (h : Header) : Bool := match h.location with | some g => geoOk g | none => true
+
+theorem acceptHeader_ok (s : Settings) (h : Header) (s2 : Settings) :
+    acceptHeader s h = .ok s2 ↔
+      locOk h = true ∧ (s.audit && h.uuid.isNone) = false ∧
+      ((h.tags = none ∧ s2 = s) ∨ ∃ ts, h.tags = some ts ∧ acceptTags s ts = .ok s2) := by
+  constructor
+  · intro hh
+    unfold acceptHeader at hh
+    split at hh
+    · cases hh
+    · rename_i hloc
+      split at hh
+      · cases hh
+      · cases hh
+      · rename_i st1 htags
+        split at hh
+        · cases hh
+        · rename_i ha
+          cases hh
+          refine ⟨hloc, by simp only [Bool.not_eq_true] at ha; exact ha, ?_⟩
+          cases ht : h.tags with
+          | none => rw [ht] at htags; cases htags; exact .inl ⟨rfl, rfl⟩
+          | some ts => rw [ht] at htags; exact .inr ⟨ts, rfl, htags⟩
+  · rintro ⟨hl, ha, hcase⟩
+    unfold locOk at hl
+    unfold acceptHeader
+    rcases hcase with ⟨ht, rfl⟩ | ⟨ts, ht, h1⟩
+    · cases hloc : h.location <;> simp only [hloc] at hl <;> simp [hl, ht, ha]
+    · cases hloc : h.location <;> simp only [hloc] at hl <;> simp [hl, ht, h1, ha]
+
+theorem acceptHeader_spec : StepSpecS acceptHeader PHeader where
+  flags := by
+    intro s h s2 hh
+    obtain ⟨_, _, hcase⟩ := (acceptHeader_ok _ _ _).mp hh
+    rcases hcase with ⟨_, rfl⟩ | ⟨ts, _, h1⟩
+    · rfl
+    · exact acceptTags_spec.flags _ _ _ h1
+  frozen := by
+    intro s h s2 hs hh
+    obtain ⟨_, _, hcase⟩ := (acceptHeader_ok _ _ _).mp hh
+    rcases hcase with ⟨_, rfl⟩ | ⟨ts, _, h1⟩
+    · exact Frozen.refl _
+    · exact acceptTags_spec.frozen _ _ _ hs h1
+  iff := by
+    intro s s' h hr
+    constructor
+    · rintro ⟨s2, hh⟩
+      obtain ⟨hl, ha, hcase⟩ := (acceptHeader_ok _ _ _).mp hh
+      rcases hcase with ⟨ht, rfl⟩ | ⟨ts, ht, h1⟩
+      · refine ⟨?_, s', (acceptHeader_ok _ _ _).mpr ⟨hl, ?_, .inl ⟨ht, rfl⟩⟩⟩
+        · intro _ ts hts
+          rw [ht] at hts
+          cases hts
+        · rw [hr.audit]; exact ha
+      · obtain ⟨hp, s2', h1'⟩ := (acceptTags_spec.iff s s' ts hr).mp ⟨s2, h1⟩
+        refine ⟨fun hs ts' hts => ?_, s2', (acceptHeader_ok _ _ _).mpr ⟨hl, ?_, .inr ⟨ts, ht, h1'⟩⟩⟩
+        · rw [ht] at hts; cases hts; exact hp hs
+        · rw [hr.audit]; exact ha
+    · rintro ⟨hp, s2', hh'⟩
+      obtain ⟨hl, ha, hcase⟩ := (acceptHeader_ok _ _ _).mp hh'
+      rw [hr.audit] at ha
+      rcases hcase with ⟨ht, rfl⟩ | ⟨ts, ht, h1'⟩
+      · exact ⟨s, (acceptHeader_ok _ _ _).mpr ⟨hl, ha, .inl ⟨ht, rfl⟩⟩⟩
+      · obtain ⟨s2, h1⟩ := (acceptTags_spec.iff s s' ts hr).mpr ⟨fun hs => hp hs ts ht, s2', h1'⟩
+        exact ⟨s2, (acceptHeader_ok _ _ _).mpr ⟨hl, ha, .inr ⟨ts, ht, h1⟩⟩⟩
+  stable := by
+    intro s t h hfr
+    simp only [PHeader, PTag, hfr.tags]
+
+/-! ### one transaction, the journal -/
+
+/-- the settings-independent final checks of `parse_txn` / `Transaction::from` -/
+def finalOk (ps : List Posting) : Prop :=
+  match ps with
+  | [] => False
+  | p0 :: _ => ps.any (fun p => p.txnComm != p0.txnComm) = false ∧ ∃ sm, txnSum ps = some sm ∧ sm.isZero = true
+
+theorem acceptTxn_ok (s : Settings) (r : RawTxn) (t : Txn) (s2 : Settings) :
+    acceptTxn s r = .ok (t, s2) ↔
+      ∃ s1 ps, acceptHeader s r.header = .ok s1 ∧ acceptPostings s1 r.posts r.last = .ok (ps, s2) ∧
+        t = ⟨r.header, ps⟩ ∧ finalOk ps := by
+  constructor
+  · intro h
+    unfold acceptTxn at h
+    cases h1 : acceptHeader s r.header with
+    | err => simp [h1] at h
+    | undef => simp [h1] at h
+    | ok s1 =>
+      simp only [h1] at h
+      cases h2 : acceptPostings s1 r.posts r.last with
+      | err => simp [h2] at h
+      | undef => simp [h2] at h
+      | ok r2 =>
+        obtain ⟨ps, s2'⟩ := r2
+        simp only [h2] at h
+        cases ps with
+        | nil => simp at h
+        | cons p0 tl =>
+          simp only at h
+          split at h
+          · cases h
+          · rename_i hany
+            split at h
+            · cases h
+            · rename_i sm hsm
+              split at h
+              · rename_i hz
+                cases h
+                exact ⟨s1, p0 :: tl, rfl, h2, rfl, by simpa using hany, sm, hsm, hz⟩
+              · cases h
+  · rintro ⟨s1, ps, h1, h2, rfl, hf⟩
+    unfold acceptTxn
+    cases ps with
+    | nil => exact absurd hf (by simp [finalOk])
+    | cons p0 tl =>
+      obtain ⟨hany, sm, hsm, hz⟩ := hf
+      simp [h1, h2, hany, hsm, hz]
+
+/-- every account, commodity and tag the transaction names is in the charts -/
+def PTxn (s : Settings) (r : RawTxn) : Prop := PHeader s r.header ∧ PPostings s (r.posts, r.last)
+
+theorem PTxn.stable {s t : Settings} (r : RawTxn) (h : Frozen s t) : PTxn t r ↔ PTxn s r := by
+  simp only [PTxn, acceptHeader_spec.stable s t r.header h, acceptPostings_spec.stable s t (r.posts, r.last) h]
+
+theorem acceptTxn_spec : StepSpec acceptTxn PTxn where
+  flags := by
+    intro s r t s2 h
+    obtain ⟨s1, ps, h1, h2, _, _⟩ := (acceptTxn_ok _ _ _ _).mp h
+    exact (acceptPostings_spec.flags s1 (r.posts, r.last) ps s2 h2).trans (acceptHeader_spec.flags _ _ _ h1)
+  frozen := by
+    intro s r t s2 hs h
+    obtain ⟨s1, ps, h1, h2, _, _⟩ := (acceptTxn_ok _ _ _ _).mp h
+    have hfr := acceptHeader_spec.frozen _ _ _ hs h1
+    exact hfr.trans (acceptPostings_spec.frozen s1 (r.posts, r.last) ps s2 (hfr.strict.trans hs) h2)
+  iff := by
+    intro s s' r t hr
+    constructor
+    · rintro ⟨s2, h⟩
+      obtain ⟨s1, ps, h1, h2, ht, hf⟩ := (acceptTxn_ok _ _ _ _).mp h
+      obtain ⟨hp1, s1', h1'⟩ := (acceptHeader_spec.iff s s' r.header hr).mp ⟨s1, h1⟩
+      have hr1 : Rel s1 s1' := hr.step (acceptHeader_spec.flags _ _ _ h1) (acceptHeader_spec.flags _ _ _ h1')
+      obtain ⟨hp2, s2', h2'⟩ := (acceptPostings_spec.iff s1 s1' (r.posts, r.last) ps hr1).mp ⟨s2, h2⟩
+      refine ⟨fun hs => ⟨hp1 hs, ?_⟩, s2', (acceptTxn_ok _ _ _ _).mpr ⟨s1', ps, h1', h2', ht, hf⟩⟩
+      have hfr := acceptHeader_spec.frozen _ _ _ hs h1
+      exact (acceptPostings_spec.stable s s1 (r.posts, r.last) hfr).mp (hp2 (hfr.strict.trans hs))
+    · rintro ⟨hp, s2', h'⟩
+      obtain ⟨s1', ps, h1', h2', ht, hf⟩ := (acceptTxn_ok _ _ _ _).mp h'
+      obtain ⟨s1, h1⟩ := (acceptHeader_spec.iff s s' r.header hr).mpr ⟨fun hs => (hp hs).1, s1', h1'⟩
+      have hr1 : Rel s1 s1' := hr.step (acceptHeader_spec.flags _ _ _ h1) (acceptHeader_spec.flags _ _ _ h1')
+      obtain ⟨s2, h2⟩ := (acceptPostings_spec.iff s1 s1' (r.posts, r.last) ps hr1).mpr ⟨fun hs1 => by
+        have hs : s.strict = true := (strict_of_flags (acceptHeader_spec.flags _ _ _ h1)).symm.trans hs1
+        have hfr := acceptHeader_spec.frozen _ _ _ hs h1
+        exact (acceptPostings_spec.stable s s1 (r.posts, r.last) hfr).mpr (hp hs).2, s2', h2'⟩
+      exact ⟨s2, (acceptTxn_ok _ _ _ _).mpr ⟨s1, ps, h1, h2, ht, hf⟩⟩
+  stable := fun s t r h => PTxn.stable r h
+
+theorem acceptJournal_spec : StepSpec acceptJournal (fun s rs => ∀ r ∈ rs, PTxn s r) :=
+  acceptTxn_spec.mapMS
+
 end C12
 end Tackler
